@@ -37,7 +37,7 @@ ASSUMPTIONS = [
     "plain asyncio tasks are joined before the block that created them is left (ctx.spawn from a task that outlived its scope is unspecified)",
     "gates stand for external events; the ready queue below them is FIFO",
 ]
-MINIMUMS = {"monitor:task-state": 100000, "monitor:resource-initialiser-state": 1000, "conflicting_probes": 2000, "set:schedules": 2000, "tasks_spawned_ctx": 300, "tasks_spawned_asyncio": 300}
+MINIMUMS = {"monitor:task-state": 100000, "monitor:resource-initialiser-state": 1000, "resource_releases_with_own_blocks": 10, "conflicting_probes": 2000, "set:schedules": 2000, "tasks_spawned_ctx": 300, "tasks_spawned_asyncio": 300}
 JOBS = {"quick": 4, "thorough": 16}
 LEVEL_TEXT = (
     "Programs of 2-4 tasks (half started with ctx.spawn, half with asyncio.create_task, at different depths, while the parent keeps entering/leaving blocks) are run under many "
@@ -172,6 +172,13 @@ def judge(R: Recorder, prog: list[dict[str, Any]], exp: dict[int, Any], W: World
     for rec in W.disposable_views:
         want_out = W.pre_enter_view.get(rec["owner"])
         own = (("val", ("R1", rec["own"])), ("val", ("D2", rec["own"])))
+        if rec.get("phase") == "exit":
+            # released (regular exit or roll-back): whatever is visible there, it is the same before and after the resource's own block
+            ok = all(v == own for v in rec["inside"]) and rec["before"] == rec["after"] == rec["later"]
+            R.count("resource_releases_with_own_blocks")
+            R.monitor("resource-initialiser-state", ok, where={"kind": "resource-releases-share-context"},
+                      detail=f"resource {rec['idx']} of scope {rec['owner']} while being released saw before its own block {rec['before']!r}, inside it {rec['inside']!r} (own uid {rec['own']}), after it {rec['after']!r} / {rec['later']!r}", case=case)
+            continue
         ok = all(v == own for v in rec["inside"]) and rec["before"] == rec["after"] == rec["later"] == want_out
         R.count("resource_initialisers_with_own_blocks")
         R.monitor("resource-initialiser-state", ok, where={"kind": "resource-initialisers-share-context"},
@@ -231,6 +238,19 @@ def explore(R: Recorder, programs: Any, rng: random.Random, cap: int, nrandom: i
         R.inconclusive.append(f"batch driver ended {status}: {value!r}")
 
 
+def rollback_programs():  # noqa: ANN201
+    """a scope whose entering fails (a resource raises in __aenter__, at once or after suspending) or succeeds, with 2-3 other resources
+    that release themselves under blocks of their own: the releases (roll-back or regular exit) run concurrently"""
+    for failing in (None, "raise", "gate-raise"):
+        for n in (2, 3):
+            ds: list[dict[str, Any]] = [{"yield": [], "enter": "ok", "exit": "ok", "exit_block": True, "enter_block": i == 0} for i in range(n)]
+            if failing:
+                ds.append({"yield": [], "enter": failing, "exit": "ok"})
+            blk = {"op": "block", "kind": "ascope", "name": "rb", "supply": [["R1", 5]], "catch": True, "disposables": ds, "body": [] if failing else [{"op": "probe", "id": 2}]}
+            root = {"op": "block", "kind": "ascope", "name": "root", "supply": [["R1", 1], ["D2", 2]], "body": [{"op": "probe", "id": 1}, blk, {"op": "probe", "id": 3}]}
+            yield [{"op": "probe", "id": 0}, root, {"op": "probe", "id": 4}]
+
+
 def timeout_programs():  # noqa: ANN201
     """a function run through the `timeout` helper is one more task: what it enters stays its own - also in the window between the
     deadline (or the caller's cancellation) and the end of its unwinding"""
@@ -253,6 +273,7 @@ def timeout_programs():  # noqa: ANN201
 def run(R: Recorder, tier: str, seed: int, shard: int, nshards: int) -> None:
     nprog, cap, nrandom = PROGRAMS[tier]
     if shard == 0:
+        explore(R, ((p, 1) for p in rollback_programs()), random.Random(f"C03/{seed}/rollback"), cap, nrandom)
         explore(R, timeout_programs(), random.Random(f"C03/{seed}/timeout"), cap, nrandom)
         R.count("programs_through_the_timeout_helper", 12)
     R.flags["exhaustive_core"] = f"DFS over gate-release orders for every generated program (cap {cap}, then {nrandom} random schedules)"
